@@ -13,9 +13,9 @@ against the same schema object, and twice with one reused ConfigLoader.
 import itertools
 
 from .. import scenario, schemas
-from ..schemas import K, MK, SCHEMA
+from ..schemas import K, MK, MSEC, SCHEMA, TYPE
 
-DOC = SCHEMA(children=[MK("k"), K("j")])
+DOC = SCHEMA(types=[TYPE("s", [MK("k")])], children=[MK("k"), K("j"), MSEC("s", "*", "ss")])
 
 STEPS = [
     "%define a v1", "%define A v1", "%define a v2", "%define a", "%define b $a", "%define B $$a",
@@ -25,7 +25,12 @@ STEPS = [
 ]
 STEPS_SMALL = ["%define a v1", "%define A v2", "%define b $a", "%define B $$a", "%define b ${A}", "k $a", "k ${B}",
                "%include f1.conf", "%include sub/f2.conf", "%define a"]
+# the one namespace is shared with resources included from inside an open section, too: what such a fragment
+# defines is visible (and write-once) after the section, what the section defined before is visible in it
+STEPS_SEC = ["<s>", "</s>", "%include f4.conf", "k $a", "%define a v2", "%define A v1", "k ${a}$b", "%include f5.conf"]
 FILES = {
+    "d/f4.conf": ["%define a v1", "k in4"],
+    "d/f5.conf": ["k $a", "%define b w"],
     "d/f1.conf": ["%define a v1", "k $b"],
     "d/sub/f2.conf": ["%define b $a", "%include ../f3.conf", "k ${c}"],
     "d/f3.conf": ["k $a${B}", "%define C $b"],
@@ -101,11 +106,12 @@ def build(maxlen, steps, docs):
 def run(chk):
     quick = chk.tier == "quick"
     chk.rule = ("every sequence of <= N steps over the step vocabulary (defines of 3 names in mixed case with literal, "
-                "empty, $other, $$other, ${other}x and padded values, illegal names, uses, includes nested two levels); "
+                "empty, $other, $$other, ${other}x and padded values, illegal names, uses, includes nested two levels; a third "
+                "vocabulary with a section so that fragments are included from inside an open section); "
                 "all distinct; non-trivial = contains a directive. Each is executed four times on the real code (twice "
                 "against one schema object, twice through one reused ConfigLoader).")
     docs = [DOC]
-    plans = [(3, STEPS), (4, STEPS_SMALL)] if quick else [(4, STEPS), (6, STEPS_SMALL[:7])]
+    plans = [(3, STEPS), (4, STEPS_SMALL), (4, STEPS_SEC)] if quick else [(4, STEPS), (6, STEPS_SMALL[:7]), (5, STEPS_SEC)]
     for maxlen, steps in plans:
         sc = build(maxlen, steps, docs)
         outs = sc.run_spec(chk)
